@@ -7,6 +7,7 @@ import (
 	"fmt"
 	"go/ast"
 	"go/types"
+	"strings"
 
 	"golang.org/x/tools/go/ssa"
 )
@@ -183,11 +184,52 @@ func runC16(c *Ctx, r *Report) {
 			nlen++
 			goal := lpx.lenTerm(call.Call.Args[0]).add(lpx.term(szx), -1)
 			okp, facts, failed := lpx.ProveAt(call.Block(), call, []lin{goal})
+			// R-C16.8: … and no fewer than min(size, what there is)
+			var valuesVal ssa.Value
+			for v := range backSlice(call.Call.Args[0], nil) {
+				if c2, ok := v.(*ssa.Call); ok && c2.Parent() == st.Parent() && c2 != call {
+					if c2.Call.IsInvoke() && c2.Call.Method.Name() == "Slice" {
+						valuesVal = c2
+					} else if cal := c2.Call.StaticCallee(); cal != nil && cal.Name() == "Slice" {
+						valuesVal = c2
+					}
+				}
+			}
+			k8 := r.Key("R-C16.8", join, "kept-enough", "")
+			if valuesVal == nil {
+				r.Undecided("R-C16.8", k8, call.Pos(), "the linearisation the truncated list is cut from was not found (no Slice() result on the way to the rebuilt index)")
+			} else {
+				kept := lpx.lenTerm(call.Call.Args[0])
+				geSize := lpx.term(szx).add(kept, -1)
+				geAll := lpx.lenTerm(valuesVal).add(kept, -1)
+				ok8 := true
+				failed8 := ""
+				np := 0
+				for i, d := range lpx.pathFacts(call.Block()) {
+					all := append(append([]lfact{}, d...), lpx.defs...)
+					if infeasibleFacts(all) {
+						continue
+					}
+					np++
+					if !lpx.ProveDNFOnPath(d, [][]lin{{geSize}, {geAll}}) {
+						ok8 = false
+						var ds []string
+						for _, f := range d {
+							ds = append(ds, f.String())
+						}
+						failed8 = fmt.Sprintf("path %d [%s]", i, strings.Join(ds, " ∧ "))
+						break
+					}
+				}
+				r.Check(ok8 && np > 0, "R-C16.8", k8, call.Pos(), fmt.Sprintf("len(kept list) ≥ min(size, len(linearisation)) proved on all %d path classes of the bounded branch", np),
+					"cannot show that the truncated log keeps min(size, total) entries ("+failed8+"): for some bound (one between the merged size and twice that, or one equal to it) the log is cut down further than the bound asks for")
+			}
 			r.Check(okp, "R-C16.6", r.Key("R-C16.6", join, "kept-length", ""), call.Pos(), "len(kept list) ≤ size proved on every path of the bounded branch",
 				"cannot show that the list the truncated log is rebuilt from has at most size entries ("+failed+"): for some bound (e.g. 0, where a negated index means 'from the start') the log keeps more entries than the bound allows", facts...)
 		}
 		r.Floor("R-C16.6", "rebuilds of the entry index in the bounded branch", nlen, 1)
 	}
+	r.Doc("R-C16.8", "the list the truncated log is rebuilt from holds at least min(size, total) entries: the cut never takes more than the bound requires")
 	r.Doc("R-C16.7", "the heads of the truncated log are recomputed over the truncated list on every path (adopted from C02)")
 	importRules(c, r, "C02", []string{"R-C02.6"}, "R-C16.7")
 	r.Doc("R-C16.5", "the bounded merge computes its candidates, validates, applies and truncates in one critical section of the destination")
